@@ -43,6 +43,15 @@ def execute(job):
         else:
             mod = __import__(job['module'])
             r = getattr(mod, job['func'])(prog, job)
+        try:
+            import engine as _e
+            fs, ms = set(), set()
+            for obj in _e.Engine._instances:
+                fs |= obj.called; ms |= obj.modelled
+            r['functions'] = sorted(fs); r['modelled'] = sorted(ms)
+            _e.Engine._instances = []
+        except Exception:
+            pass
     except JobTimeout:
         r = {'job': job, 'timeout': True}
     except Unsupported as e:
@@ -51,6 +60,11 @@ def execute(job):
         r = {'job': job, 'error': traceback.format_exc()[-2000:]}
     finally:
         signal.alarm(0)
+        try:
+            import engine as _e2
+            _e2.Engine._instances = []
+        except Exception:
+            pass
     r.setdefault('wall', time.time() - t0)
     return r
 
@@ -189,6 +203,7 @@ def main():
     incon = []
     tot = {'paths': 0, 'steps': 0, 'obligations': 0, 'discharged': 0, 'assert_queries': 0, 'feas_queries': 0, 'solver_time': 0.0, 'nontrivial': 0}
     identity = {}
+    fn_used = set(); ext_used = set()
     viols = []; lemma_viols = []; samples = []; coverage = {}; outcomes = {}; smt2 = []
     jobsum = []
     for r in results:
@@ -211,6 +226,7 @@ def main():
             outcomes[key] = outcomes.get(key, 0) + v
         smt2 += r.get('smt2', [])
         if r.get('identity'): identity[tag] = r['identity']
+        fn_used |= set(r.get('functions', [])); ext_used |= set(r.get('modelled', []))
         jobsum.append({'job': tag, 'paths': r.get('paths', 0), 'obligations': r.get('obligations', 0), 'wall_s': round(r.get('wall', 0), 2)})
         if r.get('paths', 1) == 0 and not r.get('vacuous'): incon.append('no path explored in job ' + tag)
     # vacuity: every named situation must be witnessed on a successful path at the largest N
@@ -232,8 +248,17 @@ def main():
         groups.setdefault(key, []).append(v)
     os.makedirs(os.path.join(VERIF, 'replays'), exist_ok=True)
     for key, vs in sorted(groups.items(), key=lambda kv: str(kv[0])):
-        v = min(vs, key=lambda z: (z['N'], sum(abs(s['stamp']) for s in z['pre']['slots']) if z.get('pre') else 0))
-        status, detail = confirm(prop, v)
+        cands = sorted(vs, key=lambda z: (z['N'], sum(abs(s['stamp']) for s in z['pre']['slots']) if z.get('pre') else 0))
+        # one representative per distinct N, smallest first; a model that does not reproduce (e.g. an address layout that the
+        # native allocator cannot produce for an empty Vec) does not hide a larger one that does
+        tried = []; seenN = set()
+        for c in cands:
+            if c['N'] in seenN or len(tried) >= 4: continue
+            seenN.add(c['N']); tried.append(c)
+        status = 'not_reproduced'; detail = {}; v = tried[0]
+        for c in tried:
+            status, detail = confirm(prop, c); v = c
+            if status == 'reproduced': break
         h = hashlib.sha1(json.dumps([key, v['args'], v['pre']], sort_keys=True).encode()).hexdigest()[:10]
         path = os.path.join(VERIF, 'replays', '%s-%s.json' % (prop, h))
         json.dump({'property': prop, 'kind': v.get('kind', 'mutator'), 'violation': v, 'native': detail, 'status': status}, open(path, 'w'), indent=1)
@@ -284,7 +309,11 @@ def main():
             'rule': 'one case = one feasible MIR path of one operation from the symbolic INV pre-state (all arenas with exactly N slots); non-trivial = the operation returned (Ok/Err/value) rather than being cut',
             'jobs': sorted(jobsum, key=lambda z: z['job']),
             'outcomes': outcomes, 'situations_witnessed': coverage, 'situations_missing': missing,
-            'functions_encoded': len(fh), 'function_hashes_sample': dict(list(sorted(fh.items()))[:12]),
+            'functions_in_mir': len(fh),
+            'functions_encoded': sorted(n.split('>::')[-1] if '>::' in n else n for n in fn_used),
+            'functions_encoded_count': len(fn_used),
+            'external_callees_modelled': sorted(ext_used),
+            'function_hashes_sample': dict(list(sorted(fh.items()))[:12]),
             'bounds': {'tier': tier, 'N_slots': sorted(set(j.get('N', 0) for j in jobs)), 'configs': sorted(set(j['cfg'] for j in jobs)),
                        'stamps': 'full i16 range, symbolic', 'payload': '8-bit opaque identity', 'step_bound': '4000+3000*N MIR steps per path'},
             'second_solver': {'engine': 'cvc5', 'queries': cvc5_total, 'agree': cvc5_agree},
